@@ -4,6 +4,7 @@ import (
 	"context"
 	"fmt"
 	"reflect"
+	"sort"
 	"strconv"
 	"strings"
 	"time"
@@ -349,9 +350,12 @@ func rtOracle(r *rtRun, prop string) []string {
 				last[ret.client] = ser
 			}
 		}
-		// Events: strictly increasing subsequence of installs
+		// Events: strictly increasing subsequence of installs, in the order in which the receives happened
+		// (the harness acknowledges results later and in any order)
 		var lastEv uint64
-		for _, ret := range r.returns {
+		byRet := append([]rtReturn(nil), r.returns...)
+		sort.SliceStable(byRet, func(i, j int) bool { return byRet[i].retAt < byRet[j].retAt })
+		for _, ret := range byRet {
 			if ret.op.Kind == "events" && strings.HasPrefix(ret.res, "ev:") {
 				cfg := ret.res[3:]
 				found := false
